@@ -129,6 +129,13 @@ Calls(f) ==
   \cup {ApN(f, <<>>, <<<<"y", a>>>>) : a \in ArgV} \cup {ApN(f, <<>>, <<<<"y", a>>, <<"x", b>>>>) : a \in ArgV, b \in ArgV}
   \cup {ApN(f, <<a>>, <<<<"y", b>>>>) : a \in ArgV, b \in ArgV}
   \cup {ApN(f, <<N(1)>>, <<<<"x", N(2)>>>>), ApN(f, <<>>, <<<<"w", N(2)>>>>), ApT(f, <<N(1), ErrE>>), ApT(f, <<N(1), N(2)>>)}
+Fns4 == {Fn(<<Pm("a"), Pd("b", N(10)), Pd("c", d2), Pd("d", d3)>>, ArrE(<<V("a"), V("b"), V("c"), V("d")>>)) :
+           d2 \in {N(20), V("b"), Bin("+", V("a"), N(1))}, d3 \in {N(30), V("c"), ErrE}}
+Pos4 == {<<>>, <<N(1)>>, <<N(1), N(2)>>, <<N(1), N(2), N(3)>>, <<N(1), N(2), N(3), N(4)>>}
+NamedVal(x) == CASE x = "a" -> N(5) [] x = "b" -> N(6) [] x = "c" -> N(7) [] x = "d" -> N(8) [] OTHER -> N(9)
+Named4 == {<<>>} \cup {<<<<x, NamedVal(x)>>>> : x \in {"a", "b", "c", "d", "w"}}
+          \cup {<<<<x, NamedVal(x)>>, <<y, NamedVal(y)>>>> : x \in {"a", "b", "c", "d"}, y \in {"a", "b", "c", "d"}}
+          \cup {<<<<"d", N(8)>>, <<"c", N(7)>>, <<"b", N(6)>>>>, <<<<"b", N(6)>>, <<"d", N(8)>>, <<"a", N(5)>>>>}
 Fact == Fn(<<Pm("n")>>, If(Bin("==", V("n"), N(0)), N(1), Bin("*", V("n"), Ap(V("f"), <<Bin("-", V("n"), N(1))>>))))
 PFunc(pi) ==
   CASE pi = 1 ->
@@ -145,6 +152,11 @@ PFunc(pi) ==
          {Ap(a, <<N(1)>>) : a \in {N(1), Nul, S(<<97>>), ArrE(<<>>)}}
     [] pi = 7 ->
          {Let(<<<<"z", N(7)>>>>, Std("length", <<f>>)) : f \in Fns}
+    [] pi = 8 ->
+         \* four parameters, three of them defaulted: every mix of positional and named arguments
+         \* (a named argument BETWEEN two parameters that fall back on their defaults, out of order,
+         \* doubly bound, unknown)
+         {ApN(f, ps, ns) : f \in Fns4, ps \in Pos4, ns \in Named4}
 
 -----------------------------------------------------------------------------
 (* obj: visibility, self, super, +:, locals, asserts, computed names, $      *)
@@ -173,6 +185,11 @@ Observe(o) ==
   {o, Dot(o, "a"), Dot(o, "b"), Dot(o, "c"), Std("objectFields", <<o>>), Std("objectFieldsAll", <<o>>), Std("length", <<o>>),
    Bin("in", S(<<97>>), o), Std("objectHas", <<o, S(<<97>>)>>), Std("objectHasAll", <<o, S(<<98>>)>>),
    Std("toString", <<o>>), Bin("==", o, o)}
+DollarInner ==
+  {ObjE(<<Fd("v", "d", N(1)), Fd("w", "d", Dot(<<"dollar">>, "v"))>>),
+   ObjE(<<OLoc("l", Dot(<<"dollar">>, "v")), Fd("v", "d", N(1)), Fd("w", "d", ArrE(<<V("l"), Dot(Self, "v")>>))>>),
+   ObjE(<<Fd("v", "d", N(1)), Fd("w", "d", ObjE(<<Fd("p", "d", ArrE(<<Dot(<<"dollar">>, "v"), Dot(Self, "q")>>)), Fd("q", "d", N(6))>>))>>)}
+
 PObj(pi) ==
   CASE pi = 1 ->
          UNION {Observe(o) : o \in BaseObjs}
@@ -186,6 +203,18 @@ PObj(pi) ==
               x \in {N(5), Bin("*", N(2), N(3))}, ne \in {S(<<97>>), If(T, S(<<97>>), S(<<98>>))}, v \in {"d", "h"}}
            \cup {ObjE(<<OLoc("l", N(4)), OLoc("m", Bin("*", V("l"), V("l"))), FdC(S(<<97>>), "d", V("m")),
                         FdC(S(<<98>>), "h", V("m")), Fd("c", "d", ArrE(<<V("l"), V("m")>>))>>)}}
+
+    [] pi = 4 ->
+         \* `$` is the OUTERMOST object the literal is written in, whatever the literal is combined with:
+         \* a nested literal using `$` (directly, through an object local, through a method) extended on
+         \* either side by an object defined outside any object (a local, a function result), by a nested
+         \* literal, or by a chain of them
+         UNION {{o, Dot(Dot(o, "a"), "w"), Dot(Dot(o, "a"), "v"), Std("objectFields", <<Dot(o, "a")>>)} : o \in
+           {Let(<<<<"m", ObjE(<<Fd("v", "d", N(3))>>)>>, <<"g", Fn(<<>>, ObjE(<<Fd("v", "d", N(4)), Fd("u", "d", N(0))>>))>>>>,
+                ObjE(<<Fd("v", "d", N(2)), Fd("a", "d", comb)>>)) :
+              comb \in UNION {{Bin("+", inner, ext), Bin("+", ext, inner), Bin("+", Bin("+", inner, ext), ext),
+                               Bin("+", inner, Bin("+", ext, ObjE(<<Fd("t", "d", N(1))>>)))} :
+                              inner \in DollarInner, ext \in {V("m"), Ap(V("g"), <<>>), ObjE(<<Fd("v", "d", N(5))>>), ObjE(<<>>)}}}}
 
 -----------------------------------------------------------------------------
 (* comp: array and object comprehensions                                     *)
@@ -422,8 +451,8 @@ NParts ==
   CASE Slice = "arith" -> 4
     [] Slice = "str" -> 6
     [] Slice = "lazy" -> 5
-    [] Slice = "func" -> 7
-    [] Slice = "obj" -> 3
+    [] Slice = "func" -> 8
+    [] Slice = "obj" -> 4
     [] Slice = "comp" -> 12
     [] Slice = "lib" -> 17
 
